@@ -48,7 +48,7 @@ type ll struct {
 var eqForms = []string{" = ", "=", " =", "= ", "\t=\t", "  =  ", " =\t", "\t= "}
 var indents = []string{"", " ", "\t", "    ", "\t\t", " \t", "        "}
 var commentTexts = []string{"comment", "kdc = evil.example.com:88", "default_realm = WRONG.REALM", "}", "{", "[realms]",
-	"x = {", "forwardable = maybe", "admin_server = evil.example.com*", ".example.com = WRONG.REALM", "[libdefaults]", "no equals sign here"}
+	"x = {", "forwardable = maybe", "admin_server = evil.example.com*", ".example.com = WRONG.REALM", "[libdefaults]", "no equals sign here", ""}
 
 func blockLines(out *[]ll, sec string, realm, depth int, lines []Line) {
 	for _, l := range lines {
